@@ -33,6 +33,7 @@ type Program struct {
 	BadEntry []int    `json:"badentry,omitempty"` // positions (in Preload order) of undecodable entries
 	Paused   bool     `json:"paused,omitempty"`  // pause right after setup
 	CrashAt  int      `json:"crashat,omitempty"` // cut the execution after this many adapter calls and recover (0 = never)
+	Tag      string   `json:"tag,omitempty"`     // promise of the generator: "seq" | "ordered"
 }
 
 type Fault struct {
@@ -518,7 +519,7 @@ func (e *env) exec(op Op) {
 				if !ok {
 					break
 				}
-				got = append(got, fmt.Sprintf("%s:%d:%s", sesc(r.JobId), r.Data, errCode(r.Err)))
+				got = append(got, fmt.Sprintf("%s|%d|%s", sesc(r.JobId), r.Data, errCode(r.Err)))
 			}
 		case varmq.EnqueuedErrGroupJob:
 			ch := g.Errs()
@@ -527,7 +528,7 @@ func (e *env) exec(op Op) {
 				if !ok {
 					break
 				}
-				got = append(got, fmt.Sprintf("_:0:%s", errCode(r)))
+				got = append(got, fmt.Sprintf("_|0|%s", errCode(r)))
 			}
 		}
 		e.ret(c, "gcollect", fmt.Sprintf("%d [%s]", op.B, strings.Join(got, ",")))
